@@ -37,6 +37,11 @@ func (c *Conversation) sendMessageOnPlaintext(message ValidMessage, trace ...int
 	if c.Policies.has(requireEncryption) {
 		c.messageEvent(MessageEventEncryptionRequired, trace...)
 		c.updateLastSent()
+		if c.resend.mayRetransmit != retransmitExact {
+			// what is remembered is the last message of an earlier session,
+			// not a text waiting for encryption
+			c.resend.clear()
+		}
 		c.updateMayRetransmitTo(retransmitExact)
 		c.lastMessage(MessagePlaintext(makeCopy(message)), trace...)
 		return []ValidMessage{c.QueryMessage()}, nil
